@@ -67,6 +67,15 @@ def generate(seed, tier, index):
         for s_ in range(m0.ns):
             i_ = rs.randint(0, m0.nc - 1)
             st_[s_ * m0.nc + i_] = float(rs.randint(1, 6)) + rs.choice([-1.0, -1.0, 1.0]) * rs.choice([1e-10, 2e-10, 5e-10])
+            if rs.chance(0.35):
+                # a species whose real total is exactly one molecule (one whole molecule, two halves, four quarters)
+                for j_ in range(m0.nc):
+                    st_[s_ * m0.nc + j_] = 0.0
+                parts = rs.choice([1, 2, 4])
+                for j_ in rs.sample(list(range(m0.nc)), min(parts, m0.nc)):
+                    st_[s_ * m0.nc + j_] = 1.0 / min(parts, m0.nc) if min(parts, m0.nc) in (1, 2, 4) else 0.0
+                if min(parts, m0.nc) not in (1, 2, 4):
+                    st_[s_ * m0.nc] = 1.0
         spec["state"] = st_
     default_state = (not near_int) and rs.chance(0.1)
     if default_state:
@@ -191,6 +200,9 @@ def check(case, results):
                 elif meta["klass"] == "near_int":
                     # written in molecules, at most a few dozen per species: the sum is good to ~1e-14
                     lo, hi = math.floor(t - 2e-11), math.floor(t + 2e-11)
+                    if np.all(real[s] * 4 == np.floor(real[s] * 4)):
+                        lo = hi = math.floor(t)       # quarters add up exactly: no tie to allow for
+                        stats["totals_of_exactly_a_whole_number_from_fractions"] = stats.get("totals_of_exactly_a_whole_number_from_fractions", 0) + 1
                     stats["totals_within_1e-9_of_a_whole_number"] = stats.get("totals_within_1e-9_of_a_whole_number", 0) + 1
                 got = X[:, s, :].sum(axis=1)
                 if np.any((got < lo) | (got > hi)):
